@@ -110,6 +110,18 @@ def _run_case(case, r):
         r.violation(f'{sig}:argument-reuse', f'{fam} theta={th}: cumulative_distribution '
                     f'{"modified its argument" if not np.array_equal(same, P) else "answers differently the second time"} '
                     f'when the same array object is evaluated twice', case=case)
+    # a read-only batch (what DataFrame.to_numpy() hands out under copy-on-write, np.broadcast_to, a memory map): same answer
+    ro = np.array(P, dtype=float)
+    ro.flags.writeable = False
+    r.tr()
+    try:
+        ans_ro = np.asarray(cop.cumulative_distribution(ro), float)
+        if not np.array_equal(ans_ro, first_ans, equal_nan=True):
+            r.violation(f'{sig}:read-only-input', f'{fam} theta={th}: cumulative_distribution of a read-only array differs from the '
+                        f'same values in a writeable array', case=case)
+    except Exception as e:
+        r.violation(f'{sig}:read-only-input:raises', f'{fam} theta={th}: cumulative_distribution of a read-only array raised '
+                    f'{type(e).__name__}: {e}', case=case)
     # ... and the same array object REFILLED in place between two calls: the answer is a function of the values; the array
     # returned by the earlier call must not be rewritten by the later one
     kept = np.array(second_ans, float)
